@@ -6,5 +6,5 @@ wt="/tmp/mut_${p}${tag}"
 git -C /repo worktree remove --force "$wt" 2>/dev/null
 git -C /repo worktree add -q --detach "$wt" HEAD || exit 2
 ( cd "$wt" && git apply "$sd/patch.diff" ) || { echo "PATCH DOES NOT APPLY to HEAD"; git -C /repo worktree remove --force "$wt"; exit 1; }
-( cd /verif && VERIF_REPO="$wt" ./check "$p" --tier quick 2>&1 | tail -${3:-6} | cut -c1-500 )
+( cd /verif && VERIF_WORK="/verif/.work/seedrun_${p}${tag}" VERIF_REPO="$wt" ./check "$p" --tier quick 2>&1 | tail -${3:-6} | cut -c1-500 )
 git -C /repo worktree remove --force "$wt"
